@@ -19,8 +19,7 @@ package rrc
 
 //@ func Manager.Reserve
 //@ watch sameAddress pathKey time.Time.Before
-//@ requires inv: INV(m)
-//@ ensures inv: INV(m)
+//@ invariant inv: INV(m)
 //@ ensures active-unlimited: SAME() ==> result == nil
 //@ ensures budget: result == nil && !SAME() ==> m.paths[KEY()] != nil && BUDGET(m.paths[KEY()])
 //@ ensures charged: result == nil && !SAME() ==> m.paths[KEY()].sentBytes == old(m.paths[KEY()].sentBytes) + uint64(wireBytes)
@@ -89,8 +88,7 @@ package rrc
 
 //@ func Manager.Start
 //@ watch sameAddress Manager.pathLocked rand.Read
-//@ requires inv: INV(m)
-//@ ensures inv: INV(m)
+//@ invariant inv: INV(m)
 //@ ensures disabled: !enabled ==> !result1 && result2 == nil && !called("Manager.pathLocked")
 //@ ensures active-not-challenged: enabled && SAME() ==> !result1 && result2 == nil && !called("Manager.pathLocked")
 //@ ensures error-no-challenge: result2 != nil ==> !result1
@@ -107,8 +105,7 @@ package rrc
 
 //@ func Manager.Cancel
 //@ watch Manager.touchLocked
-//@ requires inv: INV(m)
-//@ ensures inv: INV(m)
+//@ invariant inv: INV(m)
 //@ ensures never-starts: forallKey(m.paths, func(k string) bool { return m.paths[k].challengePending ==> old(m.paths[k].challengePending) })
 //@ ensures other-cookie-kept: forallKey(m.paths, func(k string) bool { return old(m.paths[k].cookie) != cookie ==> m.paths[k].challengePending == old(m.paths[k].challengePending) })
 //@ ensures cancelled: called("Manager.touchLocked") ==> !argAs("Manager.touchLocked", 2, m.paths[""]).challengePending && argAs("Manager.touchLocked", 2, m.paths[""]).cookie == cookie
@@ -122,8 +119,7 @@ package rrc
 
 //@ func Manager.HandleResponse
 //@ watch pathKey time.Time.Before
-//@ requires inv: INV(m)
-//@ ensures inv: INV(m)
+//@ invariant inv: INV(m)
 //@ ensures known-path: result ==> old(m.paths[KEY()]) != nil
 //@ ensures was-pending: result ==> old(m.paths[KEY()].challengePending)
 //@ ensures cookie-equal: result ==> old(m.paths[KEY()].cookie) == cookie
